@@ -409,48 +409,79 @@ def _visited_state(rc: RuleCtx, rule: str, fi, loop: ast.While):
     res = rc.res
     # exit flag: a name tested negatively in the loop test and set to True when the state is already in the set
     flag_names = [n.operand.id for n in ast.walk(loop.test) if isinstance(n, ast.UnaryOp) and isinstance(n.op, ast.Not) and isinstance(n.operand, ast.Name)]
+    def membership(expr):
+        """(tuple text list, set name, tuple node) when expr is `<tuple> in <name>`."""
+        if isinstance(expr, ast.Compare) and len(expr.ops) == 1 and isinstance(expr.ops[0], ast.In) and isinstance(expr.left, ast.Tuple) \
+                and isinstance(expr.comparators[0], ast.Name):
+            return [ast.unparse(e) for e in expr.left.elts], expr.comparators[0].id, expr.left
+        return None
+
     found = None
-    for st in loop.body:
-        if isinstance(st, ast.If) and isinstance(st.test, ast.Compare) and len(st.test.ops) == 1 and isinstance(st.test.ops[0], ast.In) \
-                and isinstance(st.test.left, ast.Tuple) and isinstance(st.test.comparators[0], ast.Name):
+    for k, st in enumerate(loop.body):
+        m = None
+        if isinstance(st, ast.If) and not st.orelse:
+            m = membership(st.test)
             sets_flag = any(isinstance(b, ast.Assign) and isinstance(b.targets[0], ast.Name) and b.targets[0].id in flag_names
                             and isinstance(b.value, ast.Constant) and b.value.value is True for b in st.body)
-            if sets_flag and not st.orelse:
-                found = (st, [ast.unparse(e) for e in st.test.left.elts], st.test.comparators[0].id)
+            if m is None or not sets_flag:
+                m = None
+        elif isinstance(st, ast.Assign) and isinstance(st.targets[0], ast.Name) and st.targets[0].id in flag_names:
+            v = st.value
+            m = membership(v)
+            if m is None and isinstance(v, ast.BoolOp) and isinstance(v.op, ast.Or):
+                for part in v.values:
+                    m = m or membership(part)
+        if m is not None:
+            found = (k, m[0], m[1], m[2])
     ok = False
-    why = "no `if <state tuple> in <set>: <exit flag> = True` in the loop body"
+    why = "no `if <state tuple> in <set>: <exit flag> = True` (or `<exit flag> = <state tuple> in <set>`) in the loop body"
     if found is not None:
-        st, comps, setname = found
-        k = loop.body.index(st)
-        adds = [b for b in loop.body[k + 1:] if isinstance(b, ast.Expr) and isinstance(b.value, ast.Call) and ast.unparse(b.value.func) == f"{setname}.add"
-                and ast.unparse(b.value.args[0]) == ast.unparse(st.test.left)]
-        # the set must be created before the loop and not re-bound inside
+        k, comps, setname, tup = found
+        adds = [j for j, b in enumerate(loop.body) if isinstance(b, ast.Expr) and isinstance(b.value, ast.Call) and ast.unparse(b.value.func) == f"{setname}.add"
+                and b.value.args and ast.unparse(b.value.args[0]) == ast.unparse(tup)]
         rebound = any(isinstance(n, ast.Name) and isinstance(n.ctx, ast.Store) and n.id == setname for b in loop.body for n in ast.walk(b))
+        comp_names = {n.id for n in ast.walk(tup) if isinstance(n, ast.Name)}
+        # index of the last top-level statement that (re)binds a component of the state, or the exit flag to True/anything
+        last_assign = -1
+        for j, b in enumerate(loop.body):
+            if any(isinstance(n, ast.Name) and isinstance(n.ctx, ast.Store) and n.id in comp_names for n in ast.walk(b)):
+                last_assign = j
+        # the flag must not be reset to False after the membership test
+        reset_after = any(isinstance(n, ast.Assign) and isinstance(n.targets[0], ast.Name) and n.targets[0].id in flag_names
+                          and not (isinstance(n.value, ast.Constant) and n.value.value is True) and membership(n.value) is None
+                          for b in loop.body[k + 1:] for n in ast.walk(b))
         if not adds:
             why = "the visited state is not recorded unconditionally on every iteration"
         elif rebound:
             why = "the visited set is re-bound inside the loop"
+        elif min(adds) < k:
+            why = "the state is recorded before it is looked up: the lookup always succeeds"
+        elif last_assign >= k:
+            why = (f"a component of the state {comps} is re-assigned after the membership test (statement {last_assign + 1} of the body): the state that is "
+                   "looked up is not the state that is recorded / carried to the next iteration, so a repeated state is never recognised")
+        elif reset_after:
+            why = "the exit flag is overwritten after the membership test"
         else:
             # read-before-write analysis of the body: carried names read before being written
             written = set()
             rbw = set()
 
             def scan(stmts, written):
-                for s in stmts:
-                    if isinstance(s, ast.If):
-                        for n in ast.walk(s.test):
+                for s_ in stmts:
+                    if isinstance(s_, ast.If):
+                        for n in ast.walk(s_.test):
                             if isinstance(n, ast.Name) and isinstance(n.ctx, ast.Load) and n.id not in written:
                                 rbw.add(n.id)
                         w1, w2 = set(written), set(written)
-                        scan(s.body, w1)
-                        scan(s.orelse, w2)
+                        scan(s_.body, w1)
+                        scan(s_.orelse, w2)
                         written |= (w1 & w2)
                         continue
-                    loads = [n for n in ast.walk(s) if isinstance(n, ast.Name) and isinstance(n.ctx, ast.Load)]
+                    loads = [n for n in ast.walk(s_) if isinstance(n, ast.Name) and isinstance(n.ctx, ast.Load)]
                     for n in loads:
                         if n.id not in written:
                             rbw.add(n.id)
-                    for n in ast.walk(s):
+                    for n in ast.walk(s_):
                         if isinstance(n, ast.Name) and isinstance(n.ctx, ast.Store):
                             written.add(n.id)
             scan(loop.body, written)
@@ -461,7 +492,7 @@ def _visited_state(rc: RuleCtx, rule: str, fi, loop: ast.While):
                 why = f"the recorded state {comps} omits loop-carried variable(s) {sorted(missing)} that feed the next iteration"
             else:
                 ok = True
-                why = f"state {comps} covers every loop-carried variable read before written ({sorted(feeding)}); recorded on every iteration; exit when it repeats"
+                why = f"state {comps} covers every loop-carried variable read before written ({sorted(feeding)}); looked up then recorded after its last update on every iteration; exit when it repeats"
     if ok:
         res.ok(rule, f"{fi.qualname}:variant", "visited-state idiom: " + why + "; components are integer knees / cut-offs bounded by the curve length => finitely many states")
     else:
